@@ -315,20 +315,22 @@ func C17RenderProject(root, importBase string, row C17Row, seed int64) error {
 // C17Outcome is the projection compared with the outcome the specification
 // prescribes ([ok |-> TRUE, compiles |-> TRUE]).
 type C17Outcome struct {
-	Gen    string  `json:"gen"`   // ok | error | cfgerror | panic | timeout | crash
-	Pass   int     `json:"pass"`  // generator pass that failed (models = bound has two)
-	Build    bool `json:"typechecks"` // all generated packages type-check (go vet's type-check; go build when run)
-	Vet      bool `json:"vet"`        // no vet analyzer diagnostic
-	VetRun   bool `json:"vet_run"`
-	BuildRun bool `json:"build_run"` // go build ./... was run as well
-	Kind   string  `json:"kind"`  // "" | gen-error | gen-panic | gen-timeout | gen-crash | build | vet
-	Class  string  `json:"class"` // normalised first message
-	Detail string  `json:"detail"`
-	WallS  float64 `json:"wall_s"`
+	Gen      string  `json:"gen"`        // ok | error | cfgerror | panic | timeout | crash
+	Pass     int     `json:"pass"`       // generator pass that failed (models = bound has two)
+	Build    bool    `json:"typechecks"` // all generated packages type-check (go vet's type-check; go build when run)
+	Vet      bool    `json:"vet"`        // no vet analyzer diagnostic
+	VetRun   bool    `json:"vet_run"`
+	BuildRun bool    `json:"build_run"` // go build ./... was run as well
+	Kind     string  `json:"kind"`      // "" | gen-error | gen-panic | gen-timeout | gen-crash | build | vet
+	Class    string  `json:"class"`     // normalised first message
+	Detail   string  `json:"detail"`
+	WallS    float64 `json:"wall_s"`
 }
 
-func (o C17Outcome) OK() bool       { return o.Kind == "" }
-func (o C17Outcome) Infra() bool    { return o.Kind == "gen-timeout" || o.Kind == "gen-crash" || o.Kind == "infra" }
+func (o C17Outcome) OK() bool { return o.Kind == "" }
+func (o C17Outcome) Infra() bool {
+	return o.Kind == "gen-timeout" || o.Kind == "gen-crash" || o.Kind == "infra"
+}
 func (o C17Outcome) Ok() bool       { return o.Gen == "ok" }
 func (o C17Outcome) Compiles() bool { return o.Gen == "ok" && o.Build && o.Vet }
 
